@@ -134,8 +134,8 @@ func (H) Gen(prop string, rng *rand.Rand, tier string) *core.Plan {
 			p.Ops = append(p.Ops, core.Op{K: "jump", A: int64([]int{65530, 65536, 70000}[rng.Intn(3)])})
 		case r < 72:
 			qf := core.Op{K: "qflush", S: fmt.Sprint(rng.Intn(1 << 30))}
-			if prop == "C11" && rng.Intn(2) == 0 {
-				qf.A = 1 // a row with another field arrives while the flush runs
+			if (prop == "C11" || prop == "C10") && rng.Intn(2) == 0 {
+				qf.A = 1 // a row with another field (or of a series never written before) arrives while the flush runs
 			}
 			p.Ops = append(p.Ops, qf)
 		case r < 76:
@@ -177,6 +177,7 @@ type run struct {
 	route     bool         // writes are split by lindb's broker-side routing (hash -> shard, timestamp -> family)
 	own       map[int]bool // C12 node databases: the shards this database holds (nil = all)
 	forceOnly int          // > 0: the next write carries exactly field forceOnly-1 (mid-flush writes)
+	forceNew  bool         // the next write goes to series that were never written before (writes while the index is being flushed)
 	points    []point
 	flushes   int
 	epoch     int
@@ -296,6 +297,20 @@ func (r *run) write(op core.Op) {
 	}
 	for i := int64(0); i < nrows; i++ {
 		si := rng.Intn(len(r.series))
+		if r.forceNew {
+			// a series no row was written for yet, if there is one left
+			seen := map[int]bool{}
+			for _, p := range r.points {
+				seen[p.series] = true
+			}
+			for k := 0; k < len(r.series); k++ {
+				if cand := (si + k) % len(r.series); !seen[cand] {
+					si = cand
+					r.c.Sim.Probe("new-series-while-index-is-flushed")
+					break
+				}
+			}
+		}
 		// timestamps inside the first 10 minutes of the hour, slot aligned or not; duplicates and out of order happen
 		ts := Jan1 + int64(rng.Intn(60))*10000 + int64(rng.Intn(3))*3333
 		if fams := r.c.Plan.C("families", 1); fams > 1 {
@@ -364,6 +379,16 @@ func (r *run) write(op core.Op) {
 }
 
 // hasImmutable reports whether a data family of the run's shards has a memory database that is being flushed.
+// indexFlushing: the index database of one of the shards is between PrepareFlush and the end of Flush.
+func (r *run) indexFlushing() bool {
+	for sh := 0; sh < r.shards; sh++ {
+		if shard, ok := r.n.Engine.GetShard(r.db, models.ShardID(sh)); ok && index.VerifFlushing(shard.IndexDB()) {
+			return true
+		}
+	}
+	return false
+}
+
 func (r *run) hasImmutable() bool {
 	for sh := 0; sh < r.shards; sh++ {
 		shard, ok := r.n.Engine.GetShard(r.db, models.ShardID(sh))
@@ -942,9 +967,20 @@ func (r *run) query(op core.Op, duringFlush bool) {
 		// while the flush runs (the memory database may be switched, its file not yet committed) a row arrives that
 		// carries only another field of the metric, then the statement is asked
 		// half of the time right away, otherwise once a memory database of the metric's shards has been switched
-		if c.Sim.Tape.Choose(2) == 0 {
+		if mode := c.Sim.Tape.Choose(3); mode == 0 {
 			for i := c.Sim.Tape.Choose(4); i > 0; i-- {
 				c.Sim.YieldNow()
+			}
+		} else if mode == 2 {
+			// ... or once the index of a shard is being flushed (between PrepareFlush and the end of Flush): the rows
+			// then go to series that were never written before, whose index entries land in the new mutable stores
+			// while the old ones are being persisted
+			for i := 0; i < 600 && !flushDone && !r.indexFlushing(); i++ {
+				c.Sim.YieldNow()
+			}
+			if r.indexFlushing() {
+				c.Sim.Probe("write-while-index-is-flushed")
+				r.forceNew = true
 			}
 		} else {
 			for i := 0; i < 600 && !flushDone && !r.hasImmutable(); i++ {
@@ -959,8 +995,13 @@ func (r *run) query(op core.Op, duringFlush bool) {
 			other = (other + 1) % 3
 		}
 		r.forceOnly = other + 1
+		if r.forceNew || c.Plan.Prop == "C10" {
+			// new series come with whatever fields the row has; the C10 statements select the first field, which every
+			// row of those plans carries (a group without a value of the selected field is judged strictly there)
+			r.forceOnly = 0
+		}
 		r.write(core.Op{K: "write", A: 1 + atoi(op.S)%2, S: op.S + "7"})
-		r.forceOnly = 0
+		r.forceOnly, r.forceNew = 0, false
 		before = len(r.points)
 		c.Sim.Probe("write-during-flush")
 	}
